@@ -14,8 +14,10 @@
      kind    "unary" | "prod" | "exch"
      n0      messages logged by the method body (before the result / before the header and the stream)
      iraise  the method body raises after logging
-     steps   process() calls: [pre, act, post]: `pre` messages, then act = "emit" | "emitfin" | "fin" | "raise",
-             then (after an emitted batch) `post` messages
+     steps   process() calls: [pre, act, post]: `pre` messages, then act = "emit" | "emitfin" | "fin" | "raise" | "emitraise",
+             then (after an emitted batch) `post` messages; "emitraise" = out.emit(), `post` messages, then the step raises.
+             A failed step delivers ALL the messages it logged -- those before and those after its out.emit() -- ahead of
+             the error, and never its data batch (design documented by 2c0e64a)
      ops     client operations "t" tick / exchange | "i" iterate to the end | and the three ways of leaving a session:
              "c" close() | "x" cancel() | "w" leaving the `with` block (__exit__) -- each right after any turn, so that
              messages logged AFTER the batch of the last turn taken are met only while the session is being left
@@ -38,8 +40,11 @@ CONSTANTS MaxSteps, Pres, Designs,
 \* ------------------------------------------------------------------------------------------ the space of calls
 St(p, a, q) == [pre |-> p, act |-> a, post |-> q]
 EmitSteps == {St(p, "emit", q) : p \in Pres, q \in {0, 1}}
-EndStepsProd == {St(p, "emitfin", q) : p \in Pres, q \in {0, 1}} \cup {St(p, "fin", 0) : p \in Pres} \cup {St(p, "raise", 0) : p \in Pres}
-EndStepsExch == {St(p, "raise", 0) : p \in Pres}
+\* failing steps: "raise" fails before it emitted anything; "emitraise" emits its batch, logs `post` more messages and only
+\* then fails (post = 1: with post = 0 it is "raise" as far as messages go)
+FailSteps == {St(p, "raise", 0) : p \in Pres} \cup {St(p, "emitraise", 1) : p \in Pres}
+EndStepsProd == {St(p, "emitfin", q) : p \in Pres, q \in {0, 1}} \cup {St(p, "fin", 0) : p \in Pres} \cup FailSteps
+EndStepsExch == FailSteps
 RECURSIVE SeqsOfLen(_, _)
 SeqsOfLen(S, n) == IF n = 0 THEN {<<>>} ELSE {Append(s, x) : s \in SeqsOfLen(S, n - 1), x \in S}
 StepScripts(kind) == LET E == IF kind = "prod" THEN EndStepsProd ELSE EndStepsExch IN
@@ -94,16 +99,18 @@ TurnEm(st, nl, nd) ==
   \o (CASE st.act = "emit"    -> <<[e |-> "d", n |-> nd + 1]>> \o LogEvs(nl + st.pre, st.post)
         [] st.act = "emitfin" -> <<[e |-> "d", n |-> nd + 1]>> \o LogEvs(nl + st.pre, st.post) \o <<E0("s")>>
         [] st.act = "fin"     -> <<E0("s")>>
-        [] st.act = "raise"   -> <<E0("e")>>)
+        [] st.act = "raise"   -> <<E0("e")>>
+        [] st.act = "emitraise" -> <<[e |-> "d", n |-> nd + 1]>> \o LogEvs(nl + st.pre, st.post) \o <<E0("e")>>)
 TurnWire(st, nl, nd) ==
   CASE st.act = "emit"    -> LogItems(nl, st.pre) \o <<[t |-> "D", n |-> nd + 1]>> \o LogItems(nl + st.pre, st.post)
                              \o (IF ~Http \/ Buf THEN <<>> ELSE <<[t |-> IF Prod THEN "K" ELSE "$"]>>)
     [] st.act = "emitfin" -> LogItems(nl, st.pre) \o <<[t |-> "D", n |-> nd + 1]>> \o LogItems(nl + st.pre, st.post) \o <<[t |-> "Z"]>>
     [] st.act = "fin"     -> LogItems(nl, st.pre) \o <<[t |-> "Z"]>>
-    [] st.act = "raise"   -> (IF FixLogsBeforeError THEN LogItems(nl, st.pre) ELSE <<>>) \o <<[t |-> "E"]>>
+    [] st.act \in {"raise", "emitraise"} ->       \* the collector's log batches (all of them, not its data batch), then the error
+                             (IF FixLogsBeforeError THEN LogItems(nl, st.pre + st.post) ELSE <<>>) \o <<[t |-> "E"]>>
                              \o (IF Http THEN (IF Prod THEN <<>> ELSE <<[t |-> "$"]>>) ELSE <<[t |-> "Z"]>>)
-TurnOver(st) == st.act \in {"emitfin", "fin", "raise"}
-AfterTurn(st) == [srv EXCEPT !.k = @ + 1, !.nl = @ + st.pre + st.post, !.nd = IF st.act \in {"emit", "emitfin"} THEN @ + 1 ELSE @,
+TurnOver(st) == st.act \in {"emitfin", "fin", "raise", "emitraise"}
+AfterTurn(st) == [srv EXCEPT !.k = @ + 1, !.nl = @ + st.pre + st.post, !.nd = IF st.act \in {"emit", "emitfin", "emitraise"} THEN @ + 1 ELSE @,
                              !.pc = IF TurnOver(st) /\ (~Http \/ Prod) THEN "done" ELSE "loop"]
 
 \* http_buf: every turn up to the end of the stream, written into one response
